@@ -229,3 +229,54 @@ Section Link.
       change s' with (fst (s', a)). rewrite <- E. apply same_sto_with_lookup.
   Qed.
 End Link.
+
+(* ------------------------------------------------------------------ every registry of every reachable system
+   satisfies the invariant of reachable storages (so RegSys-level consumers can cite the C09 theorems
+   stated for registries with [inv]) *)
+Lemma inv_storage W g g' : storage g = storage g' -> inv W g -> inv W g'.
+Proof.
+  destruct g as [a s c e n], g' as [a' s' c' e' n']. unfold storage; cbn. intros E. inversion E; subst.
+  intros [[I1 I2 I3 I4 I5] G]. split; [constructor; cbn in *; auto | intros q; apply (G q)].
+Qed.
+
+Lemma nd_storage g g' : storage g = storage g' -> nd g -> nd g'.
+Proof.
+  destruct g as [a s c e n], g' as [a' s' c' e' n']. unfold storage; cbn. intros E. inversion E; subst. auto.
+Qed.
+
+Section Reach.
+  Variable W : world.
+  Variable call : value -> list nat -> option nat.
+
+  Lemma inv2_bstep g b : world_ok W -> inv2 W g -> inv2 W (bstep W g b).
+  Proof.
+    intros WOK H. destruct b; cbn [bstep].
+    - apply inv2_register; auto.
+    - apply inv2_unregister; auto.
+    - apply inv2_subscribe; auto.
+    - apply inv2_unsubscribe; auto.
+    - rewrite rebuild_is_replay. apply inv2_replay; auto. repeat split.
+  Qed.
+
+  Lemma final_snoc s ops o : final W call s (ops ++ [o]) = fst (step W call (final W call s ops) o).
+  Proof. unfold final. rewrite fold_left_app. reflexivity. Qed.
+
+  Lemma regsys_reachable_inv ops : forall i,
+    inv W (rs_reg (get (final W call [] ops) i))
+    /\ (world_ok W -> nd (rs_reg (get (final W call [] ops) i))).
+  Proof.
+    induction ops as [|o ops IH] using rev_ind; intros i.
+    - cbn. destruct i; (split; [apply inv_empty | intros _ j; constructor]).
+    - rewrite final_snoc. set (s := final W call [] ops) in *.
+      pose proof (regsys_step_storage W call s o i) as E. unfold sto in E.
+      destruct (as_bop o) as [[r b]|].
+      + destruct (Nat.eqb i r && Nat.ltb r (length s)).
+        * destruct (IH r) as [I N]. split.
+          -- eapply inv_storage; [symmetry; exact E | apply inv_bstep; auto].
+          -- intros WOK. eapply nd_storage; [symmetry; exact E|]. apply (inv2_bstep _ b WOK). split; auto.
+        * destruct (IH i) as [I N]. split; [eapply inv_storage; [symmetry; exact E | auto]|].
+          intros WOK. eapply nd_storage; [symmetry; exact E | auto].
+      + destruct (IH i) as [I N]. split; [eapply inv_storage; [symmetry; exact E | auto]|].
+        intros WOK. eapply nd_storage; [symmetry; exact E | auto].
+  Qed.
+End Reach.
